@@ -612,13 +612,32 @@ func compScenarios(a map[string]string) *compScenario {
 			params = append(params, fmt.Sprintf("p%d", i))
 		}
 		nlFinal := a["newline"] != "0" // "0": the last line of params.txt has no final newline
+		blank := a["blank"] == "1"     // blank lines after every line and two more at the end (empty items are items)
+		lines := []string{}
+		for i := 0; i < k; i++ {
+			lines = append(lines, fmt.Sprintf("line%d", i))
+			if blank {
+				lines = append(lines, "")
+			}
+		}
+		if blank {
+			lines = append(lines, "", "")
+		}
+		desc := fmt.Sprintf("sources/items=%d/final-newline=%v", k, nlFinal)
+		if blank {
+			desc += "/blank-lines"
+		}
 		return &compScenario{
-			desc: fmt.Sprintf("sources/items=%d/final-newline=%v", k, nlFinal),
+			desc: desc,
 			setup: func() {
 				for _, f := range files {
 					os.WriteFile(f, []byte(f), 0644)
 				}
-				writeLines("params.txt", k, nlFinal)
+				if blank {
+					os.WriteFile("params.txt", []byte(strings.Join(lines, "\n")+"\n"), 0644)
+				} else {
+					writeLines("params.txt", k, nlFinal)
+				}
 			},
 			build: func(wf *sp.Workflow) {
 				fs := components.NewFileSource(wf, "fsrc", files...)
@@ -632,13 +651,10 @@ func compScenarios(a map[string]string) *compScenario {
 			},
 			oracle: func(o *Obs, add func(class, detail string)) {
 				rc := received(o.Notes)
-				lines := []string{}
-				for i := 0; i < k; i++ {
-					lines = append(lines, fmt.Sprintf("line%d", i))
-				}
 				for name, want := range map[string][]string{"rec_f": files, "rec_p": params, "rec_l": lines, "rec_c": lines} {
-					if strings.Join(rc[name], ",") != strings.Join(want, ",") {
-						add("source-items", fmt.Sprintf("%s received [%s], expected exactly [%s] in order", name, strings.Join(rc[name], ","), strings.Join(want, ",")))
+					// %q: an empty item is an item (a joined string would hide it)
+					if fmt.Sprintf("%q", rc[name]) != fmt.Sprintf("%q", want) && !(len(rc[name]) == 0 && len(want) == 0) {
+						add("source-items", fmt.Sprintf("%s received %q, expected exactly %q in order", name, rc[name], want))
 					}
 				}
 			},
